@@ -9,6 +9,7 @@ import (
 	"fmt"
 	"go/token"
 	"go/types"
+	"strings"
 
 	"golang.org/x/tools/go/ssa"
 )
@@ -99,9 +100,29 @@ func derefMsgType(t types.Type) types.Type {
 }
 
 func (e *Engine) havocMessageFields(c *FnCtx, st *State, why string) {
+	e.havocMessageFieldsFrom(c, st, why, "")
+}
+
+// havocMessageFieldsFrom: a library call rewrote a message and its sub-messages.  When the message is a deep-fresh
+// clone (everything reachable from it was allocated at or after mark), objects below the mark are untouched.
+func (e *Engine) havocMessageFieldsFrom(c *FnCtx, st *State, why string, mark string) {
+	cond := "true"
+	if mark != "" {
+		// the frame below the mark only holds if nothing older was grafted into the clone since it was made
+		var cs []string
+		for _, t := range c.grafts {
+			cs = append(cs, "(< "+t+" "+mark+")")
+		}
+		cond = c.sc.Define("nograft", sBool, And(cs...))
+	}
 	for _, k := range e.compOrder {
 		if k != msgComp && e.isMessageComp(k) {
-			st.heap[k] = c.sc.Fresh(k+"$"+why, e.comps[k])
+			old := c.heapGet(st, k)
+			nh := c.sc.Fresh(k+"$"+why, e.comps[k])
+			if mark != "" && strings.HasPrefix(e.comps[k], "(Array Int ") {
+				c.sc.Assume(Implies(cond, fmt.Sprintf("(forall ((r Int)) (! (=> (< r %s) (= (select %s r) (select %s r))) :pattern ((select %s r))))", mark, nh, old, nh)))
+			}
+			st.heap[k] = nh
 		}
 	}
 }
@@ -117,7 +138,7 @@ func init() {
 			c.cloneInto(st, mt, "(i-val "+m.E+")", nr, 0)
 		}
 		c.eng.onAlloc(c, st, nr, nil)
-		r := Val{T: m.T, Dyn: m.Dyn, E: c.sc.Define("clone", sIface, Ite("(= (i-tag "+m.E+") 0)", nilIface, "(mk-iface (i-tag "+m.E+") "+nr+")"))}
+		r := Val{T: m.T, Dyn: m.Dyn, FreshFrom: nr, E: c.sc.Define("clone", sIface, Ite("(= (i-tag "+m.E+") 0)", nilIface, "(mk-iface (i-tag "+m.E+") "+nr+")"))}
 		return &r
 	}
 	preludeTable[P+"Equal"] = func(c *FnCtx, fr *Frame, st *State, fn *ssa.Function, args []Val, pos token.Pos) *Val {
@@ -129,7 +150,7 @@ func init() {
 		c.sc.Decl("mergeval", "(declare-fun |mergeval| (Int Int) Int)")
 		mh := c.msgHeap()
 		nv := "(|mergeval| " + c.msgVal(st, "(i-val "+dst.E+")") + " " + c.msgVal(st, "(i-val "+src.E+")") + ")"
-		c.eng.havocMessageFields(c, st, "merge")
+		c.eng.havocMessageFieldsFrom(c, st, "merge", dst.FreshFrom)
 		c.heapSet(st, mh, "(store "+c.heapGet(st, mh)+" (i-val "+dst.E+") "+nv+")")
 		return nil
 	}
@@ -139,11 +160,57 @@ func init() {
 		c.eng.onMessageWrite(c, st, dst, "proto.Reset", pos)
 		c.sc.Decl("emptyval", "(declare-fun |emptyval| (Int) Int)")
 		mh := c.msgHeap()
-		c.eng.havocMessageFields(c, st, "reset")
+		c.eng.havocMessageFieldsFrom(c, st, "reset", dst.FreshFrom)
 		c.heapSet(st, mh, "(store "+c.heapGet(st, mh)+" (i-val "+dst.E+") (|emptyval| (i-tag "+dst.E+")))")
 		return nil
 	}
 	preludeModTable[P+"Reset"] = []string{"msgs"}
+	// proto.Unmarshal(b, m): m's fields are overwritten with unknown contents; the error is unconstrained
+	preludeTable[P+"Unmarshal"] = func(c *FnCtx, fr *Frame, st *State, fn *ssa.Function, args []Val, pos token.Pos) *Val {
+		c.eng.onMessageWrite(c, st, args[1], "proto.Unmarshal", pos)
+		c.eng.havocMessageFieldsFrom(c, st, "unmarshal", args[1].FreshFrom)
+		if _, ok := c.eng.comps[msgComp]; ok {
+			st.heap[msgComp] = c.sc.Fresh(msgComp+"$unmarshal", c.eng.comps[msgComp])
+		}
+		r := c.fresh("unmarshalErr", fn.Signature.Results().At(0).Type(), st)
+		return &r
+	}
+	preludeModTable[P+"Unmarshal"] = []string{"msgs"}
+	preludeModTable["sort.Slice"] = []string{"all"}
+	preludeModTable["sort.SliceStable"] = []string{"all"}
 }
 
 func (e *Engine) onMessageWrite(c *FnCtx, st *State, m Val, what string, pos token.Pos) {}
+
+// fmutils: Filter/Prune write only the message they are given (assumed library contract).
+func init() {
+	const F = "github.com/mennanov/fmutils."
+	filterLike := func(what string, msgArg int) preludeFn {
+		return func(c *FnCtx, fr *Frame, st *State, fn *ssa.Function, args []Val, pos token.Pos) *Val {
+			m := args[msgArg]
+			c.eng.onMessageWrite(c, st, m, what, pos)
+			c.sc.Decl("filterval", "(declare-fun |filterval| (Int Int) Int)")
+			mh := c.msgHeap()
+			c.eng.havocMessageFieldsFrom(c, st, "filter", m.FreshFrom)
+			// the abstract content becomes a function of the old content and the mask argument
+			other := args[1-msgArg]
+			key := "0"
+			switch c.ty.SortOf(other.T) {
+			case sSlice:
+				key = "(s-arr " + other.E + ")"
+			case sInt:
+				key = other.E
+			}
+			c.heapSet(st, mh, "(store "+c.heapGet(st, mh)+" (i-val "+m.E+") (|filterval| "+c.msgVal(st, "(i-val "+m.E+")")+" "+key+"))")
+			return nil
+		}
+	}
+	preludeTable[F+"Filter"] = filterLike("fmutils.Filter", 0)
+	preludeTable[F+"Prune"] = filterLike("fmutils.Prune", 0)
+	preludeTable["("+F+"NestedMask).Filter"] = filterLike("NestedMask.Filter", 1)
+	preludeTable["("+F+"NestedMask).Prune"] = filterLike("NestedMask.Prune", 1)
+	for _, n := range []string{F + "Filter", F + "Prune", "(" + F + "NestedMask).Filter", "(" + F + "NestedMask).Prune"} {
+		preludeModTable[n] = []string{"msgs"}
+	}
+	pureLibPrefixes = append(pureLibPrefixes, F+"NestedMaskFromPaths")
+}
